@@ -511,7 +511,7 @@ def run_case(case):
 
 def main(run):
     quick = run.tier == "quick"
-    recs = G.quick_family() if quick else G.full_family()
+    recs = [r for r in (G.quick_family() if quick else G.full_family()) if not r.get("opts", {}).get("flip_sub")]  # (occupants are appended to the class body: the class must come last)
     tasks = [{"part": "occupant", "rec": r, "tier": run.tier} for r in recs]
     tasks += [{"part": "naming", "specs": [s]} for s in NAMING]
     tasks.append({"part": "selection"})
